@@ -186,6 +186,7 @@ type Sim struct {
 	trace []string
 	// Locals lets harness code attach per-run values.
 	Locals map[string]any
+	onIdle func()
 }
 
 var (
@@ -334,6 +335,10 @@ var (
 	wallProgress atomic.Int64
 	wallSim      atomic.Pointer[Sim]
 )
+
+// SetOnIdle registers a callback that runs whenever no goroutine can run and the
+// clock is about to jump to the next timer (or the run is about to end as quiescent).
+func (s *Sim) SetOnIdle(f func()) { s.onIdle = f }
 
 // WallProgress returns a counter that grows with every scheduling step of any
 // simulation of this process, and the simulation that is running now (nil if none).
@@ -796,6 +801,11 @@ func (s *Sim) dispatch(g *G, exiting bool) {
 func (s *Sim) advance() bool {
 	for len(s.timers) > 0 && s.timers[0].off {
 		heap.Pop(&s.timers)
+	}
+	if s.onIdle != nil && !s.aborting && s.reason == "" {
+		// nothing can run: every goroutine is blocked or asleep. Harness invariants about
+		// "asleep although there is work" are evaluated here (read-only, no simulation operations).
+		s.onIdle()
 	}
 	if len(s.timers) == 0 {
 		s.finish("quiescent")
